@@ -28,7 +28,7 @@ ASSUMPTIONS = [
     "don't-care pairs (bool against float/complex, Any, Literal containing 1 vs True/1.0, str against Sequence) give no verdict",
     "with the switch off, non-node values in child fields are outside the statement (the digest needs child nodes); property fields accept any value",
 ]
-MUST_SEE = ["fieldless_marker_classes", "field_names_resembling_builtin_ones", "ill_typed_origin", "mixin_inherited_fields", "failed_operations_with_checks_on", "same_annotation_text_other_type", "false_vs_bool", "bool_vs_int", "bool_vs_int_union", "bool_in_int_tuple", "fixed_tuple_too_long", "fixed_tuple_too_short", "multi_two_bad", "noninit_bad_default", "switch_off_same_node", "nonconforming", "conforming", "noncompare_fields_checked", "ill_typed_value_equal_to_default", "parent_used_before_subclass"]
+MUST_SEE = ["subclasses_defined_after_first_check", "fieldless_marker_classes", "field_names_resembling_builtin_ones", "ill_typed_origin", "mixin_inherited_fields", "failed_operations_with_checks_on", "same_annotation_text_other_type", "false_vs_bool", "bool_vs_int", "bool_vs_int_union", "bool_in_int_tuple", "fixed_tuple_too_long", "fixed_tuple_too_short", "multi_two_bad", "noninit_bad_default", "switch_off_same_node", "nonconforming", "conforming", "noncompare_fields_checked", "ill_typed_value_equal_to_default", "parent_used_before_subclass"]
 CONFIG = {
     "quick": {"shards": 16, "d2_sample": 150, "multi": 300, "watchdog_s": 600},
     "thorough": {"shards": 32, "d2_sample": 400, "multi": 600, "watchdog_s": 3400},
@@ -289,6 +289,30 @@ def run_shard(ctx):
                 r[1].detach()
             if got != exp:
                 ctx.violation("nonconforming-accepted" if r[0] == "ok" else "invalid-fields-wrong", f"{cn}({', '.join(kw)}) with origin {vrepr(kw.get('origin', 'default'))}: invalid fields {got}, expected {exp}", {"values": {k_: vrepr(v) for k_, v in kw.items()}})
+    # ... classes defined after an annotation was first checked: instances of later subclasses (of a node class, of Origin)
+    # conform to the annotation naming the base
+    src = f"@dataclass(frozen=True)\nclass {P}LHold(ASTNode):\n    kid: {P}IVLeaf | None = None\n    kids: tuple[{P}IVLeaf, ...] = ()\n"
+    exec(compile(src, "<c13 lhold>", "exec", dont_inherit=True), ns)
+    first = construct(ns[f"{P}LHold"], dict(kid=IVLeaf(count=1), kids=(IVLeaf(count=2),), origin=NO_ORIGIN), True)
+    src = f"@dataclass(frozen=True)\nclass {P}LateLeaf({P}IVLeaf):\n    extra: int = 0\n\n\n@dataclass(frozen=True)\nclass {P}LateOrigin(CodeOrigin):\n    pass\n"
+    ns.setdefault("CodeOrigin", CodeOrigin)
+    exec(compile(src, "<c13 late>", "exec", dont_inherit=True), ns)
+    LateLeaf, LateOrigin = ns[f"{P}LateLeaf"], ns[f"{P}LateOrigin"]
+    lo = LateOrigin(MemoryTextSource("late", source_uri=f"c13://{P}/late"), get_code_range(0, 1, 0, 2, 1, 2))
+    for kw, exp in (
+        (dict(kid=LateLeaf(count=1, extra=2)), []),
+        (dict(kids=(IVLeaf(count=3), LateLeaf(count=4))), []),
+        (dict(kid=LateLeaf(count=5), origin=lo), []),
+        (dict(kid=ns[f"{P}Marker"]()), ["kid"]),
+    ):
+        ctx.evaluations += 1
+        ctx.count("subclasses_defined_after_first_check")
+        r = construct(ns[f"{P}LHold"], kw, True)
+        got = [] if r[0] == "ok" else r[1]
+        if r[0] == "ok":
+            r[1].detach()
+        if got != exp or first[0] != "ok":
+            ctx.violation("conforming-rejected" if exp == [] else "invalid-fields-wrong", f"values of classes defined after the annotation was first checked: invalid fields {got}, expected {exp}", {"values": {k_: vrepr(v) for k_, v in kw.items()}})
     # ------------------------------------------------------------ single-field classes
     for k, a in enumerate(mine):
         ctx.case = ("single", k)
